@@ -37,7 +37,7 @@ class RestState(c02.Fidelity):
             return False, "%d names left on the schema stack" % stack
         if in_progress:
             return False, "%d schemas left IN_PROGRESS" % in_progress
-        for i, (count, props, req, shape) in enumerate(out):
+        for i, (count, props, req, shape, members) in enumerate(out):
             if count < 1:
                 return False, "declared schema #%d is missing from the result" % i
         return True, ""
@@ -130,6 +130,9 @@ class DepthCut(Obligation):
         # nesting depth reached by the deepest node (each named level / inline object / array item costs one or two enters)
         if cut and bool(lim > 4 * self.length + 4):
             return False, "depth placeholder created although the limit %r exceeds any depth this document can reach" % (lim,)
+        # the cut must actually happen: a chain clearly deeper than the limit cannot be parsed to the bottom
+        if self.kind in ("refs", "array") and not cut and bool(lim + 3 <= self.length):
+            return False, "no depth placeholder although the chain (%d named levels) is deeper than the limit %r" % (self.length, lim)
         return True, ""
 
     def prop(self, inp, r):
